@@ -94,6 +94,17 @@ func readLoopIdle() bool {
 	return false
 }
 
+// libraryQuiet: every goroutine that is inside package udp or packetio is parked (read loop in the kernel, acceptor in
+// Accept, connection readers in Buffer.Read): nothing is in flight inside the listener.
+func libraryQuiet() bool {
+	for _, g := range gstate.Snapshot() {
+		if (g.Has("pion/transport/v3/udp.") || g.Has("pion/transport/v3/packetio.")) && !gstate.Blocked(g.State) {
+			return false
+		}
+	}
+	return true
+}
+
 func runCase(c *dcase, r *res.Result) (string, string) {
 	lc := udp.ListenConfig{Backlog: c.Backlog}
 	if c.Filter == "even" {
@@ -306,6 +317,35 @@ func runCase(c *dcase, r *res.Result) (string, string) {
 			}
 		}
 		fmu.Unlock()
+		// retry: an overflowing datagram created nothing, so now that the backlog has room (the acceptor is parked in
+		// Accept) the next datagram of such a remote must create a connection from which it can be read
+		for _, cl := range clients {
+			if !overflowed[cl.idx] || cl.odd {
+				continue
+			}
+			cl.sent++
+			cl.conn.Write(mk(cl.idx, cl.sent, 40, false))
+			got := false
+			for t0 := time.Now(); time.Since(t0) < 5*time.Second && !got; {
+				fmu.Lock()
+				_, got = firstReads[cl.addr]
+				fmu.Unlock()
+				if got {
+					break
+				}
+				if libraryQuiet() && libraryQuiet() {
+					fmu.Lock()
+					_, got = firstReads[cl.addr]
+					fmu.Unlock()
+					break
+				}
+			}
+			r.Count("retries_after_overflow", 1)
+			if !got {
+				violate("demux:no-connection-after-overflow", fmt.Sprintf("client %d (%s): its first datagram overflowed the backlog (and must have created nothing); with the acceptor idle its next datagram created no connection / was never delivered", cl.idx, cl.addr))
+				break
+			}
+		}
 	}
 	// senders
 	var sw sync.WaitGroup
